@@ -80,6 +80,14 @@ def gen_iface(rng, n_ns=None, styles=None, rich=True, encoded=False):
                 attrs[-1]["default"] = "true"
             if attrs[-1]["use"] == "required":
                 attrs[-1]["default"] = None
+        if rich and not encoded:
+            for m, _path in flatten_particle(p):
+                if rng.random() < 0.12:
+                    # a reference to a global element, possibly of another namespace
+                    m["ref_ns"] = rng.randrange(n_ns)
+                    m["form"] = None
+        if rich and p["kind"] == "seq" and attrs and base is None and rng.random() < 0.15:
+            p["items"] = []          # a type with attributes only
         if rich and p["kind"] == "seq" and rng.random() < 0.2:
             # a recursive member (optional or repeating, as XSD requires for a finite instance)
             p["items"].append({"name": "m%d_self" % i, "type": ("c", (ns, name)), "min": 0,
@@ -162,8 +170,10 @@ def subtypes_of(iface, tkey):
 
 # ---------------------------------------------------------------- values
 
-def gen_builtin(rng, b):
+def gen_builtin(rng, b, attr=False):
     if b == "string":
+        if not attr and rng.random() < 0.15:
+            return rng.choice(["line one\nline two", "tab\there", " lead and trail ", "a\n\nb"])
         return rng.choice(["s", "a b", "x<&>y", "é", "0"])
     if b in ("int", "long"):
         return rng.choice([0, 1, -5, 123456789, 2 ** 40 if b == "long" else 77])
@@ -255,7 +265,7 @@ def gen_value(rng, iface, ttype, depth=0, allow_derived=True):
         val[m["name"]] = gen_member_value(rng, iface, m, depth, in_choice)
     for a, decl in attrs_of(iface, real):
         if a["use"] == "required" or rng.random() < 0.5:
-            val["_" + a["name"]] = gen_builtin(rng, a["type"])
+            val["_" + a["name"]] = gen_builtin(rng, a["type"], True)
     if not has_content(val):
         # the alphabet has no content-free objects: give the first member a value
         ms = members_of(iface, real)
@@ -263,6 +273,10 @@ def gen_value(rng, iface, ttype, depth=0, allow_derived=True):
             m, decl, in_choice = ms[0]
             v = gen_value(rng, iface, m["type"], depth + 1, allow_derived=False)
             val[m["name"]] = [v] if m["max"] == "unbounded" else v
+        else:
+            ats = attrs_of(iface, real)
+            if ats:
+                val["_" + ats[0][0]["name"]] = gen_builtin(rng, ats[0][0]["type"], True)
     return val
 
 
@@ -288,6 +302,8 @@ def gen_member_value(rng, iface, m, depth, in_choice=False):
 # ---------------------------------------------------------------- the reference: requests
 
 def member_ns(iface, m, decl_key):
+    if m.get("ref_ns") is not None:
+        return iface["namespaces"][m["ref_ns"]]["uri"]      # a reference to a global element: always qualified
     form = m["form"] or iface["namespaces"][decl_key[0]]["form"]
     return iface["namespaces"][decl_key[0]]["uri"] if form == "qualified" else None
 
@@ -441,6 +457,7 @@ class Rendering:
         self.documents = kw.get("documents", None)    # None | "import" | "include"
         self.wsdl_tns_is_ns0 = kw.get("wsdl_tns_is_ns0", False)
         self.mixed_block_forms = kw.get("mixed_block_forms", False)
+        self.block_styles = kw.get("block_styles", False)   # every schema block picks its own prefixes / defaults
         self.inline = set()        # filled by render() when anonymous
 
 
@@ -451,6 +468,8 @@ def inlinable(iface):
         for m, path in flatten_particle(t["particle"]):
             if m["type"][0] == "c":
                 uses.setdefault(m["type"][1], []).append(key)
+                if m.get("ref_ns") is not None:
+                    uses[m["type"][1]].append(None)      # typed by a global element: needs its name
     bases = set(t["base"] for t in iface["types"].values() if t["base"])
     params = set(p["type"][1] for op in iface["ops"] for p in op["in"] + op["out"] if p["type"][0] == "c")
     items = set(v[1] for v in iface.get("arrays", {}).values() if v[0] == "c")
@@ -466,7 +485,7 @@ def inlinable(iface):
 def random_rendering(rng):
     return Rendering(rng, prefixes={i: rng.choice(["t%d" % i, "ns%d" % i, "p%s" % "abc"[i % 3] * (i + 1)]) for i in range(3)},
                      wsdl_tns_is_ns0=rng.random() < 0.3, anonymous=rng.random() < 0.4,
-                     mixed_block_forms=rng.random() < 0.3, default_ns_schema=rng.random() < 0.4, shuffle=rng.random() < 0.7, groups=rng.random() < 0.5,
+                     mixed_block_forms=rng.random() < 0.3, block_styles=rng.random() < 0.6, default_ns_schema=rng.random() < 0.4, shuffle=rng.random() < 0.7, groups=rng.random() < 0.5,
                      attr_groups=rng.random() < 0.5, element_refs=rng.random() < 0.4, split_blocks=rng.random() < 0.4)
 
 
@@ -486,6 +505,13 @@ def _q(r, iface, ttype, own_ns=None):
 
 
 def _member_xml(r, iface, m, own_ns, block_form=None, extra_decls=None):
+    if m.get("ref_ns") is not None:
+        a = ['ref="%s"' % _q(r, iface, ("c", (m["ref_ns"], m["name"])), own_ns)]
+        if m["min"] != 1:
+            a.append('minOccurs="%s"' % m["min"])
+        if m["max"] != 1:
+            a.append('maxOccurs="%s"' % m["max"])
+        return "<xsd:element %s/>" % " ".join(a)
     inline = m["type"][0] == "c" and m["type"][1] in r.inline
     a = ['name="%s"' % m["name"]]
     if not inline:
@@ -516,7 +542,7 @@ def _particle_xml(r, iface, p, own_ns, extra_decls, tag_hint, block_form=None):
         if "kind" in it:
             inner.append(_particle_xml(r, iface, it, own_ns, extra_decls, "%s_%d" % (tag_hint, i), block_form))
         elif r.element_refs and block_form is None and not (it["type"][0] == "c" and it["type"][1] in r.inline) \
-                and it["form"] is None and iface["namespaces"][own_ns]["form"] == "qualified" \
+                and it.get("ref_ns") is None and it["form"] is None and iface["namespaces"][own_ns]["form"] == "qualified" \
                 and r.rng is not None and r.rng.random() < 0.5:
             # a global element + ref: same expanded name because the schema is qualified
             gname = it["name"]
@@ -568,67 +594,98 @@ def _type_xml(r, iface, key, extra_decls, name_attr=True, block_form=None):
     return "%s%s%s</xsd:complexType>" % (head, part, attr_xml)
 
 
+def to_xsd_default(text):
+    """The same schema block written with the XML Schema namespace as default namespace:
+    <schema xmlns="http://www.w3.org/2001/XMLSchema"> <element name=.. type="int"/> ..."""
+    import re
+    text = text.replace("<xsd:", "<").replace("</xsd:", "</")
+    text = re.sub(r'(type|base|wsdl:arrayType)="xsd:', r'\1="', text)
+    i = text.index("<schema") + len("<schema")
+    return text[:i] + ' xmlns="%s"' % XSD + text[i:]
+
+
 def render_schemas(r, iface):
-    """{ns index: [schema block xml, ...]} (several blocks when split_blocks / mixed_block_forms)."""
+    """{ns index: [schema block xml, ...]} (several blocks when split_blocks / mixed_block_forms).
+    Every block has its own style: default namespace (none / target namespace / XML Schema), prefix names,
+    explicit or omitted elementFormDefault."""
     out = {}
     n = len(iface["namespaces"])
+    rng = r.rng
     r.inline = set()
-    if r.anonymous and r.rng is not None and not iface.get("encoded"):
-        r.inline = set(k for k in sorted(inlinable(iface)) if r.rng.random() < 0.7)
+    if r.anonymous and rng is not None and not iface.get("encoded"):
+        r.inline = set(k for k in sorted(inlinable(iface)) if rng.random() < 0.7)
         # an inlined type must not itself contain an inlined type's only user chain that loops; one level is enough
         r.inline = set(k for k in r.inline
                        if not any(m["type"][0] == "c" and m["type"][1] in r.inline
                                   for m, _ in flatten_particle(iface["types"][k]["particle"])))
+    base_prefixes, base_default = dict(r.prefixes), r.default_ns_schema
     for ns in range(n):
-        extra = {"elements": {}, "groups": []}
         form = iface["namespaces"][ns]["form"]
         opp = "unqualified" if form == "qualified" else "qualified"
         keys = [k for k in iface["type_order"] if k[0] == ns and k not in r.inline]
-        in_b = set()
-        if r.mixed_block_forms and r.rng is not None and len(keys) >= 2:
-            in_b = set(k for k in keys if r.rng.random() < 0.5)
+        in_b, b_form = set(), None
+        if rng is not None and len(keys) >= 2 and (r.mixed_block_forms or r.split_blocks):
+            in_b = set(k for k in keys if rng.random() < 0.5)
             if len(in_b) == len(keys):
                 in_b.discard(keys[0])
-        decls, decls_b = [], []
-        for key in keys:
-            if key in in_b:
-                decls_b.append(_type_xml(r, iface, key, extra, True, opp))
-            else:
-                decls.append(_type_xml(r, iface, key, extra))
-        for akey in iface.get("array_order", []):
-            if akey[0] == ns:
-                decls.append('<xsd:complexType name="%s"><xsd:complexContent><xsd:restriction base="soapenc:Array">'
-                             '<xsd:attribute ref="soapenc:arrayType" wsdl:arrayType="%s[]"/></xsd:restriction>'
-                             '</xsd:complexContent></xsd:complexType>' % (akey[1], _q(r, iface, iface["arrays"][akey])))
-        for ekey, vals in sorted(iface.get("enums", {}).items()):
-            if ekey[0] == ns:
-                decls.append('<xsd:simpleType name="%s"><xsd:restriction base="xsd:string">%s</xsd:restriction>'
-                             '</xsd:simpleType>' % (ekey[1], "".join('<xsd:enumeration value="%s"/>' % v for v in vals)))
-        if ns == 0:
-            for op in iface["ops"]:
-                decls += _op_elements(r, iface, op, extra)
-        decls += list(extra["elements"].values()) + extra["groups"]
-        if r.shuffle and r.rng is not None:
-            r.rng.shuffle(decls)
-            r.rng.shuffle(decls_b)
-        imports = "@@IMPORTS:%d@@" % ns
-        nsdecl = " ".join('xmlns:%s="%s"' % (r.prefixes[j], iface["namespaces"][j]["uri"]) for j in range(n))
-        dflt = ' xmlns="%s"' % iface["namespaces"][ns]["uri"] if r.default_ns_schema else ""
-        def head(f):
-            return '<xsd:schema xmlns:xsd="%s" xmlns:soapenc="%s" xmlns:wsdl="%s" %s%s targetNamespace="%s" ' \
-                   'elementFormDefault="%s">' % (XSD, ENC, WSDLNS, nsdecl, dflt, iface["namespaces"][ns]["uri"], f)
-        if decls_b:
-            blocks = [head(form) + imports + "".join(decls) + "</xsd:schema>",
-                      head(opp) + imports + "".join(decls_b) + "</xsd:schema>"]
-            if r.rng.random() < 0.5:
-                blocks.reverse()
-            out[ns] = blocks
-        elif r.split_blocks and len(decls) > 1 and r.rng is not None:
-            k = r.rng.randint(1, len(decls) - 1)
-            out[ns] = [head(form) + imports + "".join(decls[:k]) + "</xsd:schema>",
-                       head(form) + imports + "".join(decls[k:]) + "</xsd:schema>"]
-        else:
-            out[ns] = [head(form) + imports + "".join(decls) + "</xsd:schema>"]
+            b_form = opp if r.mixed_block_forms else None
+        blocks = []
+        for gi in (0, 1):
+            group = [k for k in keys if (k in in_b) == (gi == 1)]
+            if gi == 1 and not group:
+                continue
+            # this block's own style
+            style = "plain"
+            if rng is not None and r.block_styles:
+                style = rng.choice(["plain", "plain", "tns-default", "xsd-default"])
+                r.prefixes = {j: (base_prefixes[j] if rng.random() < 0.6 else "%s%d" % (rng.choice(["q", "v", "z"]), j))
+                              for j in base_prefixes}
+            elif base_default:
+                style = "tns-default"
+            r.default_ns_schema = style == "tns-default"
+            block_form = b_form if gi == 1 else None
+            extra = {"elements": {}, "groups": []}
+            decls = [_type_xml(r, iface, key, extra, True, block_form) for key in group]
+            if gi == 0:
+                for akey in iface.get("array_order", []):
+                    if akey[0] == ns:
+                        decls.append('<xsd:complexType name="%s"><xsd:complexContent><xsd:restriction base="soapenc:Array">'
+                                     '<xsd:attribute ref="soapenc:arrayType" wsdl:arrayType="%s[]"/></xsd:restriction>'
+                                     '</xsd:complexContent></xsd:complexType>'
+                                     % (akey[1], _q(r, iface, iface["arrays"][akey])))
+                for ekey, vals in sorted(iface.get("enums", {}).items()):
+                    if ekey[0] == ns:
+                        decls.append('<xsd:simpleType name="%s"><xsd:restriction base="xsd:string">%s</xsd:restriction>'
+                                     '</xsd:simpleType>'
+                                     % (ekey[1], "".join('<xsd:enumeration value="%s"/>' % v for v in vals)))
+                for key, t in iface["types"].items():
+                    # global elements of this namespace that members of other types refer to
+                    for m, _ in flatten_particle(t["particle"]):
+                        if m.get("ref_ns") == ns:
+                            decls.append('<xsd:element name="%s" type="%s"%s/>' % (
+                                m["name"], _q(r, iface, m["type"], ns), ' nillable="true"' if m["nillable"] else ""))
+                if ns == 0:
+                    for op in iface["ops"]:
+                        decls += _op_elements(r, iface, op, extra)
+            decls += list(extra["elements"].values()) + extra["groups"]
+            if r.shuffle and rng is not None:
+                rng.shuffle(decls)
+            nsdecl = " ".join('xmlns:%s="%s"' % (r.prefixes[j], iface["namespaces"][j]["uri"]) for j in range(n))
+            dflt = ' xmlns="%s"' % iface["namespaces"][ns]["uri"] if r.default_ns_schema else ""
+            f = (b_form or form) if gi == 1 else form
+            fattr = ' elementFormDefault="%s"' % f
+            if f == "unqualified" and rng is not None and r.block_styles and rng.random() < 0.5:
+                fattr = ""       # unqualified is the default
+            text = ('<xsd:schema xmlns:xsd="%s" xmlns:soapenc="%s" xmlns:wsdl="%s" %s%s targetNamespace="%s"%s>'
+                    % (XSD, ENC, WSDLNS, nsdecl, dflt, iface["namespaces"][ns]["uri"], fattr)
+                    + "@@IMPORTS:%d@@" % ns + "".join(decls) + "</xsd:schema>")
+            if style == "xsd-default":
+                text = to_xsd_default(text)
+            blocks.append(text)
+        if len(blocks) == 2 and rng is not None and rng.random() < 0.5:
+            blocks.reverse()
+        out[ns] = blocks
+    r.prefixes, r.default_ns_schema = base_prefixes, base_default
     return out
 
 
@@ -742,25 +799,57 @@ def relative_to(base, target, rng):
     return rel
 
 
+def schema_open(block):
+    return block.index("<xsd:schema") if "<xsd:schema" in block else block.index("<schema")
+
+
+def schema_close(block):
+    return block.rindex("</xsd:schema>") if "</xsd:schema>" in block else block.rindex("</schema>")
+
+
 def head_of(block):
-    return block[:block.index(">", block.index("<xsd:schema")) + 1]
+    return block[:block.index(">", schema_open(block)) + 1]
 
 
 def body_of(block):
     import re
-    inner = block[len(head_of(block)):block.rindex("</xsd:schema>")]
+    inner = block[len(head_of(block)):schema_close(block)]
     return re.sub(r"@@IMPORTS:\d+@@", "", inner)
 
 
-def block_depends(b, a, prefix):
-    """Does schema block b need, at dereference time, a declaration made in block a (same namespace)?
+def block_scope(block):
+    """({prefix: uri}, default namespace uri or None) declared on the block's <schema> node."""
+    import re
+    head = head_of(block)
+    prefixes = dict(re.findall(r'xmlns:([A-Za-z0-9_]+)="([^"]*)"', head))
+    m = re.search(r'\sxmlns="([^"]*)"', head)
+    return prefixes, (m.group(1) if m else None)
+
+
+def block_refs(block):
+    """[(namespace uri, local name)] of every QName reference (type / base / ref / arrayType) in the block."""
+    import re
+    prefixes, default = block_scope(block)
+    out = []
+    for m in re.finditer(r'(?:base|ref|type|wsdl:arrayType)="(?:([^":]+):)?([^"\[]+)', block[len(head_of(block)):]):
+        uri = prefixes.get(m.group(1)) if m.group(1) else default
+        out.append((uri, m.group(2)))
+    return out
+
+
+def block_uses(block, iface):
+    """Indices of the interface namespaces the block refers to."""
+    uris = [nsd["uri"] for nsd in iface["namespaces"]]
+    return set(uris.index(u) for u, _ in block_refs(block) if u in uris)
+
+
+def block_depends(b, a, iface, ns):
+    """Does schema block b need a declaration made in block a (both of namespace index ns)?
     (types, extension bases, group / attributeGroup / element references)"""
     import re
-    declared = set(re.findall(r'<xsd:(?:complexType|group|attributeGroup|element|simpleType) name="([^"]+)"', a))
-    for m in re.finditer(r'(?:base|ref|type)="(?:([^":]+):)?([^"]+)"', b):
-        if (m.group(1) in (None, prefix)) and m.group(2) in declared:
-            return True
-    return False
+    declared = set(re.findall(r'<(?:xsd:)?(?:complexType|group|attributeGroup|element|simpleType) name="([^"]+)"', a))
+    own = iface["namespaces"][ns]["uri"]
+    return any(u == own and name in declared for u, name in block_refs(b))
 
 
 def render_partitioned(r, iface, rng, location="http://svc.invalid/endpoint", schemas=None):
@@ -788,6 +877,10 @@ def render_partitioned(r, iface, rng, location="http://svc.invalid/endpoint", sc
         for m, _ in flatten_particle(t["particle"]):
             if m["type"][0] in ("c", "a"):
                 uses[key[0]].add(m["type"][1][0])
+            if m.get("ref_ns") is not None:
+                uses[key[0]].add(m["ref_ns"])
+                if m["type"][0] in ("c", "a"):
+                    uses[m["ref_ns"]].add(m["type"][1][0])
     for akey, item in iface.get("arrays", {}).items():
         if item[0] != "b":
             uses[akey[0]].add(item[1][0])
@@ -824,31 +917,24 @@ def render_partitioned(r, iface, rng, location="http://svc.invalid/endpoint", sc
         if len(schemas[ns]) == 2:
             a_, b_ = schemas[ns]
             cyclic = any(ns in reach_ns[j] for j in reach_ns[ns] if j != ns)
-            dep_ba, dep_ab = block_depends(b_, a_, r.prefixes[ns]), block_depends(a_, b_, r.prefixes[ns])
+            dep_ba, dep_ab = block_depends(b_, a_, iface, ns), block_depends(a_, b_, iface, ns)
             if cyclic or (dep_ba and dep_ab):
                 if head_of(a_) == head_of(b_):
-                    schemas[ns] = [a_[:a_.rindex("</xsd:schema>")] + body_of(b_) + "</xsd:schema>"]
+                    schemas[ns] = [a_[:schema_close(a_)] + body_of(b_) + a_[schema_close(a_):]]
                 else:
                     together.add(ns)
             elif dep_ba:
                 schemas[ns] = [b_, a_]
     external = set(ns for ns in external if ns not in together)
-    changed = True
-    while changed:
-        changed = False
+    for _ in range(4 * n + 4):
+        before = set(external)
         for ns in list(external):
-            for j in uses[ns]:
-                if j in together:
-                    external.discard(ns)      # would need an inline-only namespace: stays inline as well
-                    changed = True
-                    break
-                if j not in external:
-                    external.add(j)
-                    changed = True
-        for ns in range(n):
-            if ns not in external and ns not in together and any(ns in uses[e] for e in external):
-                external.add(ns)
-                changed = True
+            external |= uses[ns]                       # what an out-of-line schema uses is out of line too
+        if external & together:
+            external = set()                           # would need an inline-only namespace: keep everything inline
+            break
+        if external == before:
+            break
     for ns in range(n):
         mode = rng.choice(["ximport", "ximport", "wimport"]) if ns in external else "inline"
         for bi, block in enumerate(schemas[ns]):
@@ -861,9 +947,7 @@ def render_partitioned(r, iface, rng, location="http://svc.invalid/endpoint", sc
                     doc_of_ns[ns] = u
             else:
                 # a second block of the namespace: inline too, or included by the first block
-                import re as _re
-                used = set(m.group(1) for m in _re.finditer(r'(?:type|base|ref)="([^":]+):', block))
-                foreign = set(j for j in range(n) if j != ns and r.prefixes[j] in used)
+                foreign = block_uses(block, iface) - {ns}
                 if ns in together or (ns not in external and not foreign <= external):
                     place[(ns, bi)] = ("inline",)     # an out-of-line part may only refer to out-of-line namespaces
                 elif rng.random() < 0.6:
@@ -878,11 +962,9 @@ def render_partitioned(r, iface, rng, location="http://svc.invalid/endpoint", sc
     plan = {"root": root_url, "blocks": {}, "split_wsdl": split_wsdl, "self_import": self_import}
 
     def fill_imports(block, ns, base_url):
-        import re as _re
         def locate(j):
             return relative_to(base_url, doc_of_ns[j], rng) if j in doc_of_ns else None
-        used = set(m.group(1) for m in _re.finditer(r'(?:type|base|ref)="([^":]+):', block))
-        only = set(j for j in range(n) if r.prefixes[j] in used)      # a schema imports what it uses
+        only = block_uses(block, iface)      # a schema imports what it uses
         return block.replace("@@IMPORTS:%d@@" % ns, plain_imports(iface, ns, locate, only))
 
     types_holder = iface_url or root_url      # the WSDL document that carries <types>
@@ -912,7 +994,7 @@ def render_partitioned(r, iface, rng, location="http://svc.invalid/endpoint", sc
             inc += '<xsd:include schemaLocation="%s"/>' % base_url
         if not inc:
             return text
-        i = text.index(">", text.index("<xsd:schema")) + 1
+        i = text.index(">", schema_open(text)) + 1
         return text[:i] + inc + text[i:]
     inline_blocks = [(ns, bi, add_includes(t, ns, types_holder) if bi == 0 else t) for ns, bi, t in inline_blocks]
     for ns in range(n):
@@ -1059,6 +1141,9 @@ def spec_result(iface, op, outvals):
         return decoded(iface, p["type"], v)
     if n_types == 0:
         return None
+    if not outs:
+        # an unwrapped element whose type has attributes only: no child nodes to decode
+        return None if n_types == 1 else {"__class__": "reply"}
     if n_types == 1:
         return one(outs[0])
     comp = {"__class__": "reply"}
